@@ -31,12 +31,31 @@ the other flavours.  Witnesses of the ``rt`` flavour carry ``repeat: 2`` (the
 same structure is round-tripped twice on replay), so that a defect which needs
 an earlier call in the same process still reproduces from a fresh interpreter.
 
+Key order of the per-relation dicts.  Dict equality does not depend on the order
+in which the keys were inserted, so neither may formatting: about half of the
+atoms of every flavour are handed to ``str`` as dicts whose five keys were
+inserted in another order than the one ``parse_relations`` uses (explicit
+insertion in a shuffled order, a comprehension over a shuffled key list,
+``dict.fromkeys(order)`` + ``update``, ``dict(sorted(d.items()))``, the same
+reversed, ``dict(reversed(list(d.items())))``, ``d[k] = d.pop(k)``, a plain
+``dict(d)`` copy).  The oracle stays the canonical-order structure (``==``), and
+monitor ``M.order`` additionally requires ``str`` of the permuted structure to be
+the very string ``str`` gives for an ``==`` structure in canonical order.  A
+failure that disappears when the same atoms are given in canonical key order is
+keyed ``format-depends-on-key-order/...``.
+
+Architecture lists are uniformly plain, uniformly negated, or (about a quarter)
+MIXED: negated-then-plain, plain-then-negated, strictly alternating, irregular.
+The class of every list is measured on the executed case (``archlist:*``).
+
 The workload contains a complete shape matrix every run: each of the five
 relational operators (and "no version") x every subset of {arch qualifier,
 arch list, restriction formula} x five positions (alone / first / middle / last
 alternative / inside a multi-group field); a run in which one of the 48 shapes
-was not observed is inconclusive.
+was not observed - or was not observed with a permuted key order - is
+inconclusive.
 """
+import copy
 import itertools
 import re
 import reprlib
@@ -50,16 +69,26 @@ LEVEL = 'exploration'
 RULE = ('Relation structures of 1..4 AND-groups x 1..3 alternatives (thorough: up to 6 x 4); every atom has a policy-valid '
         'lower-case package name (>= 2 characters, hostile endings such as "+", "-", "."), optionally an architecture '
         'qualifier, a version constraint (one of << <= = >= >> with a dpkg-valid version from the C03 generator), an '
-        'architecture list (1..3 names, all plain or all negated, names with "-") and a restriction formula (1..3 groups '
-        'of 1..3 lower-case terms, freely negated).  A complete matrix of (operator or none) x subsets of the three other '
+        'architecture list (1..3 names all plain or all negated, or - a quarter of the lists - 2..4 names MIXED: '
+        'negated-then-plain, plain-then-negated, strictly alternating, irregular; names with "-") and a restriction formula '
+        '(1..3 groups of 1..3 lower-case terms, freely negated).  About half of the per-relation dicts handed to '
+        'PkgRelation.str have their five keys inserted in a non-canonical order (shuffled insertion, comprehension, '
+        'dict.fromkeys+update, dict(sorted(items)), reverse-sorted, dict(reversed(items)), d[k]=d.pop(k), plain copy); the '
+        'oracle is the ==-equal canonical structure and str of both must be the same string.  A complete matrix of (operator or none) x subsets of the three other '
         'optional parts x 5 positions is part of every run.  A structure is non-trivial when at least one atom carries '
         'two or more of the four optional parts.')
 ASSUMPTIONS = [
     'domain restricted to what the statement quantifies over: lower-case policy-valid package names, the five operators, '
     'version strings dpkg accepts (vp.models.dpkgver.classify == accept, upstream starting with a digit), architecture '
     'names over [a-z0-9-], lower-case build-profile names over [a-z0-9.+-] (the parser lower-cases the formula)',
-    'architecture lists are uniformly negated or uniformly plain (Policy 7.1 forbids mixing); lists and restriction groups are non-empty',
-    'the structure handed to str carries all five keys, as parse_relations returns them',
+    'every architecture name carries its own negation flag (ArchRestriction.enabled): the statement quantifies over '
+    '"negated and plain architecture names", parse_relations decides "!" per name and the library declares Policy '
+    'conformance checks out of scope, so lists that mix negated and plain names are in the domain (Policy 7.1 would '
+    'reject them for dpkg; nothing here is claimed about dpkg accepting the text); lists and restriction groups are non-empty',
+    'the structure handed to str carries all five keys, as parse_relations returns them, each atom being a plain dict; the '
+    'ORDER of the keys is not part of the structure (dict equality ignores it), so a dict with the same five items in any '
+    'insertion order is the same input: str must give the same string for it and parse must give back an == structure; '
+    'nothing is demanded about the key order of the dicts parse_relations returns',
     'only the text produced by PkgRelation.str is parsed (no alternative spacing, no folded field values)',
 ]
 ANCHORS = ['debian.deb822:PkgRelation.parse_relations',
@@ -68,6 +97,12 @@ ANCHORS = ['debian.deb822:PkgRelation.parse_relations',
 MUST_REACH = list(ANCHORS)
 
 OPS = ['<<', '<=', '=', '>=', '>>']
+KEYS = ['name', 'archqual', 'version', 'arch', 'restrictions']      # the order parse_relations uses
+KEY_ROUTES = ['insert', 'comp', 'fromkeys', 'sorted', 'rsorted', 'reversed', 'move', 'copy']
+ARCHLIST_CLASSES = ['plain', 'negated', 'mixed:neg-then-plain', 'mixed:plain-then-neg', 'mixed:alternating',
+                    'mixed:irregular']
+P_MIXED = 0.25          # share of architecture lists that mix negated and plain names
+P_KEYORDER = 0.55       # share of atoms built through one of KEY_ROUTES
 POSITIONS = ['alone', 'first', 'middle', 'last', 'multi']
 SHAPES = ['%s|%s%s%s' % (op or 'none', 'q' if q else '-', 'a' if a else '-', 'r' if r else '-')
           for op in [None] + OPS for q in (0, 1) for a in (0, 1) for r in (0, 1)]
@@ -93,6 +128,7 @@ FLOORS = {'quick': {'nontrivial': 50000,
                                     'deb822:init:iter': 9000,
                                     'hist:mut:arch': 60000, 'hist:mut:term': 60000}}}
 SHAPE_FLOOR = {'quick': 1800, 'thorough': 55000}           # per shape, over the whole run
+KSHAPE_FLOOR = {'quick': 1, 'thorough': 1}                  # per shape with a permuted key order
 
 LOWER = 'abcdefghijklmnopqrstuvwxyz'
 DIGITS = '0123456789'
@@ -156,8 +192,42 @@ def gen_ver(r):
 
 
 def gen_archlist(r, wide):
-    neg = r.random() < 0.5
-    return [[not neg, gen_archname(r)] for _ in range(r.randint(1, 5 if wide else 3))]
+    """[[enabled, name], ...]: uniformly plain / negated, or (P_MIXED) a list mixing negated and plain names."""
+    if r.random() >= P_MIXED:
+        neg = r.random() < 0.5
+        return [[not neg, gen_archname(r)] for _ in range(r.randint(1, 5 if wide else 3))]
+    n = r.randint(2, 6 if wide else 4)
+    pat = r.choice(['neg-then-plain', 'plain-then-neg', 'alternating', 'alternating', 'irregular'])
+    if pat in ('neg-then-plain', 'plain-then-neg'):
+        cut = r.randint(1, n - 1)
+        flags = [(i >= cut) == (pat == 'neg-then-plain') for i in range(n)]
+    elif pat == 'alternating':
+        n = max(n, 3)
+        first = r.random() < 0.5
+        flags = [first == (i % 2 == 0) for i in range(n)]
+    else:
+        n = max(n, 4)             # fewer than four names cannot be irregular
+        flags = [r.random() < 0.5 for _ in range(n)]
+        if len(set(flags)) == 1:
+            flags[r.randrange(n)] = not flags[0]
+    names = [gen_archname(r) for _ in range(n)]
+    if r.random() < 0.2:          # the same name negated and plain in one list
+        names[r.randrange(1, n)] = names[0]
+    return [[f, nm] for f, nm in zip(flags, names)]
+
+
+def gen_keyorder(r):
+    """How the dict of one atom is put together (None: the literal parse_relations itself builds)."""
+    if r.random() >= P_KEYORDER:
+        return None
+    via = r.choice(['insert', 'insert', 'comp', 'fromkeys', 'sorted', 'rsorted', 'reversed', 'move', 'move', 'copy'])
+    if via in ('insert', 'comp', 'fromkeys'):
+        perm = list(KEYS)
+        r.shuffle(perm)
+        return [via, perm]
+    if via == 'move':
+        return [via, r.choice(KEYS[:-1])]
+    return [via, None]
 
 
 def gen_formula(r, wide):
@@ -176,7 +246,8 @@ def gen_atom(r, shape=None, wide=False):
             'q': gen_qual(r) if q else None,
             'v': [op, gen_ver(r)] if op else None,
             'a': gen_archlist(r, wide) if a else None,
-            'r': gen_formula(r, wide) if rr else None}
+            'r': gen_formula(r, wide) if rr else None,
+            'k': gen_keyorder(r)}
 
 
 def gen_rels(r, wide=False):
@@ -280,7 +351,7 @@ def atom_in_domain(a):
             if rest[:1] not in DIGITS or not rest:
                 return False
         if a.get('a') is not None:
-            if not a['a'] or len(set(bool(e) for e, _n in a['a'])) != 1:
+            if not a['a']:
                 return False
             if not all(isinstance(n, str) and RE_ARCH.match(n) for _e, n in a['a']):
                 return False
@@ -288,6 +359,14 @@ def atom_in_domain(a):
             if not a['r'] or not all(g for g in a['r']):
                 return False
             if not all(isinstance(p, str) and RE_PROFILE.match(p) for g in a['r'] for _e, p in g):
+                return False
+        if a.get('k') is not None:
+            via, arg = a['k']
+            if via not in KEY_ROUTES:
+                return False
+            if via in ('insert', 'comp', 'fromkeys') and not (isinstance(arg, list) and sorted(arg) == sorted(KEYS)):
+                return False
+            if via == 'move' and arg not in KEYS:
                 return False
         return True
     except (KeyError, TypeError, ValueError):
@@ -299,21 +378,86 @@ def in_domain(rels):
             and all(isinstance(g, list) and g and all(isinstance(a, dict) and atom_in_domain(a) for a in g) for g in rels))
 
 
-def build(PR, desc):
-    """Description -> structure in the shape parse_relations documents."""
+def keyed(canon, k):
+    """The dict `canon` (five keys in parse_relations' order) rebuilt the way `k` says: same items, possibly
+    another key insertion order.  Only ways a caller would plausibly obtain such a dict."""
+    if k is None:
+        return canon
+    via, arg = k
+    if via == 'insert':
+        d = {}
+        for key in arg:
+            d[key] = canon[key]
+        return d
+    if via == 'comp':
+        return {key: canon[key] for key in arg}
+    if via == 'fromkeys':
+        d = dict.fromkeys(arg)
+        d.update(canon)
+        return d
+    if via == 'sorted':
+        return dict(sorted(canon.items()))
+    if via == 'rsorted':
+        return dict(sorted(canon.items(), reverse=True))
+    if via == 'reversed':
+        return dict(reversed(list(canon.items())))
+    if via == 'move':
+        d = dict(canon)
+        d[arg] = d.pop(arg)
+        return d
+    if via == 'copy':
+        return copy.copy(canon)
+    raise ValueError(via)
+
+
+_ORDER_MEMO = {}
+
+
+def key_order(k):
+    """Effective key order of an atom built through `k`."""
+    if k is None:
+        return KEYS
+    memo = (k[0], tuple(k[1]) if isinstance(k[1], list) else k[1])
+    if memo not in _ORDER_MEMO:
+        _ORDER_MEMO[memo] = list(keyed(dict.fromkeys(KEYS), k))
+    return _ORDER_MEMO[memo]
+
+
+def permuted(a):
+    return key_order(a.get('k')) != KEYS
+
+
+def build(PR, desc, canonical=False):
+    """Description -> structure in the shape parse_relations documents.  With canonical=True the key-order
+    instruction of the atoms is ignored (the oracle; dict equality does not see the difference)."""
     AR, BR = PR.ArchRestriction, PR.BuildRestriction
     out = []
     for grp in desc:
         g = []
         for a in grp:
-            g.append({'name': a['n'],
-                      'archqual': a.get('q'),
-                      'version': (a['v'][0], a['v'][1]) if a.get('v') is not None else None,
-                      'arch': [AR(bool(e), n) for e, n in a['a']] if a.get('a') is not None else None,
-                      'restrictions': ([[BR(bool(e), p) for e, p in grp_] for grp_ in a['r']]
-                                       if a.get('r') is not None else None)})
+            d = {'name': a['n'],
+                 'archqual': a.get('q'),
+                 'version': (a['v'][0], a['v'][1]) if a.get('v') is not None else None,
+                 'arch': [AR(bool(e), n) for e, n in a['a']] if a.get('a') is not None else None,
+                 'restrictions': ([[BR(bool(e), p) for e, p in grp_] for grp_ in a['r']]
+                                  if a.get('r') is not None else None)}
+            g.append(d if canonical else keyed(d, a.get('k')))
         out.append(g)
     return out
+
+
+def archlist_class(al):
+    flags = [bool(e) for e, _n in al]
+    if all(flags):
+        return 'plain'
+    if not any(flags):
+        return 'negated'
+    changes = sum(1 for x, y in zip(flags, flags[1:]) if x != y)
+    if changes == 1:
+        return 'mixed:plain-then-neg' if flags[0] else 'mixed:neg-then-plain'
+    if changes == len(flags) - 1:
+        return 'mixed:alternating'
+    return 'mixed:irregular'
 
 
 def shape_of(a):
@@ -360,15 +504,30 @@ def roundtrip(ctx, PR, desc, mon=True):
     """format -> parse -> format one description.  Returns (failure, text, given, back);
     failure is None or (mechanism_key, message)."""
     given = build(PR, desc)
-    want = build(PR, desc)            # pristine copy: the oracle
-    text = PR.str(given)
-    with warnings.catch_warnings(record=True) as caught:
-        warnings.simplefilter('always')
-        back = PR.parse_relations(text)
+    want = build(PR, desc, canonical=True)       # pristine copy in canonical key order: the oracle
+    text = back = None
+    try:
+        text = PR.str(given)
+    except Exception as e:
+        if mon:
+            ctx.mon('M')
+        return (('str-raises/%s' % type(e).__name__, 'str(%s) raised %s: %s' % (rp(given), type(e).__name__, str(e)[:300])),
+                text, given, back)
+    if not isinstance(text, str):
+        if mon:
+            ctx.mon('M')
+        return ('str-returns-non-string', 'str() returned %s' % rp(text)), text, given, back
+    try:
+        with warnings.catch_warnings(record=True) as caught:
+            warnings.simplefilter('always')
+            back = PR.parse_relations(text)
+    except Exception as e:
+        if mon:
+            ctx.mon('M')
+        return (('parse-raises/%s' % type(e).__name__, 'parse_relations(%s) raised %s: %s' % (
+            rp(text), type(e).__name__, str(e)[:300])), text, given, back)
     if mon:
         ctx.mon('M')
-    if not isinstance(text, str):
-        return ('str-returns-non-string', 'str() returned %s' % rp(text)), text, given, back
     if caught:
         return (('parse-warning', 'parse_relations(%s) warned: %s' % (rp(text), '; '.join(str(w.message)[:300] for w in caught[:3]))),
                 text, given, back)
@@ -380,25 +539,58 @@ def roundtrip(ctx, PR, desc, mon=True):
         ctx.mon('M.idem')
     if again != text:
         return ('reformat-differs', 'str(R)=%s but str(parse(str(R)))=%s' % (rp(text), rp(again))), text, given, back
+    if any(permuted(a) for g in desc for a in g):
+        # M.order: an == structure whose dicts list their keys in the canonical order formats to the same string
+        canon_text = PR.str(build(PR, desc, canonical=True))
+        if mon:
+            ctx.mon('M.order')
+        if canon_text != text:
+            return (('equal-structures-format-differently',
+                     'str(R)=%s for dict key orders %s, but str of the == structure in canonical key order is %s' % (
+                         rp(text), rp([key_order(a.get('k')) for g in desc for a in g if permuted(a)]), rp(canon_text))),
+                    text, given, back)
     return None, text, given, back
+
+
+def strip_order(desc):
+    return [[dict(a, k=None) for a in g] for g in desc]
 
 
 def shrink(ctx, PR, desc, fail):
     """Smallest re-executable witness: a single atom of the structure that fails on its own."""
+    small = desc
     if sum(len(g) for g in desc) > 1:
-        for g in desc:
-            for a in g:
-                f = roundtrip(ctx, PR, [[a]], mon=False)[0]
-                if f is not None:
-                    return f, {'kind': 'rt', 'rels': [[a]], 'repeat': 2}
-    return fail, {'kind': 'rt', 'rels': desc, 'repeat': 2}
+        for a in (a for g in desc for a in g):
+            f = roundtrip(ctx, PR, [[a]], mon=False)[0]
+            if f is not None:
+                fail, small = f, [[a]]
+                break
+    # attribution: the same atoms in canonical key order round-trip -> the key order is what str() tripped over
+    if any(permuted(a) for g in small for a in g) and roundtrip(ctx, PR, strip_order(small), mon=False)[0] is None:
+        fail = ('format-depends-on-key-order/%s' % fail[0],
+                '%s [the == structure with canonical key order round-trips; key orders given: %s]' % (
+                    fail[1], rp([key_order(a.get('k')) for g in small for a in g if permuted(a)])))
+    return fail, {'kind': 'rt', 'rels': small, 'repeat': 2}
 
 
 def account(ctx, desc):
     nt = False
     for g in desc:
         for a in g:
-            ctx.count('shape:' + shape_of(a))
+            shape = shape_of(a)
+            ctx.count('shape:' + shape)
+            k = a.get('k')
+            if k is not None:
+                ctx.count('keyorder:via:' + k[0])
+            if permuted(a):
+                ctx.count('keyorder:permuted')
+                ctx.count('kshape:' + shape)
+                if key_order(k)[0] != 'name':
+                    ctx.count('keyorder:name-not-first')
+            else:
+                ctx.count('keyorder:canonical')
+            if a.get('a') is not None:
+                ctx.count('archlist:' + archlist_class(a['a']))
             if optional_parts(a) >= 2:
                 nt = True
     return nt
@@ -616,6 +808,10 @@ def conclusive(tier, counters, monitor_evals, extra):
     if missing:
         return 'shape matrix incomplete: %d of %d (operator x optional parts) shapes below %d observations: %s' % (
             len(missing), len(SHAPES), SHAPE_FLOOR[tier], ', '.join(missing[:8]))
+    missing = [s for s in SHAPES if counters.get('kshape:' + s, 0) < KSHAPE_FLOOR[tier]]
+    if missing:
+        return ('shape matrix under permuted dict key order incomplete: %d of %d shapes below %d observations: %s' % (
+            len(missing), len(SHAPES), KSHAPE_FLOOR[tier], ', '.join(missing[:8])))
     if counters.get('skipped:out-of-domain', 0):
         return 'generator produced %d out-of-domain cases (harness defect)' % counters['skipped:out-of-domain']
     if counters.get('skipped:paragraph-count', 0) > counters.get('flavour:deb822', 0) // 10:
